@@ -1,5 +1,5 @@
 (* ckernels vertical — the translated murmur3 kernels equal Spec/Murmur3.v for all inputs. *)
-From Coq Require Import NArith List Lia Bool Arith.
+From Coq Require Import NArith ZArith List Lia Bool Arith ZifyN.
 From ISAL Require Import Base.Words Base.ListUtil Proofs.WordsFacts Proofs.ChunkFacts Spec.Murmur3
   Model.CKernel Proofs.CKernelFacts Gen.CKernelGen.
 Import ListNotations.
@@ -38,8 +38,9 @@ Ltac w32 := change (2 ^ 32) with 4294967296 in *; change (2 ^ 31) with 214748364
 Lemma wrap32_small x : x < 2 ^ 32 -> wrap 32 x = x.
 Proof. apply wrap_small. Qed.
 
+Ltac Zify.zify_post_hook ::= Z.to_euclidean_division_equations.
 Ltac solve_idx :=
-  repeat rewrite wrap32_small by (w32; lia); try reflexivity; try lia.
+  unfold wrap; rewrite ?N.land_ones; w32; lia.
 
 (* a load from a word-celled object whose cells are an abstract list *)
 Lemma load_abs (cells : list N) idx j v :
@@ -116,15 +117,14 @@ Proof.
   unfold blk_nv in Hlv. explode vars Hlv.
   cbn in Hci, Hcn. inversion Hci; inversion Hcn; subst. clear Hci Hcn Hlv.
   eexists. split.
-  - exists (length blk_b). intros F r. unfold blk_b.
-    ck_run.
-    repeat match goal with
-    | |- context [if ?idx <? N.of_nat (length words) then nth_error words (N.to_nat ?idx) else None] =>
-        first [ rewrite (load_abs words idx (2 * i) k1) by (first [ exact Hk1 | solve_idx ])
-              | rewrite (load_abs words idx (2 * i + 1) k2) by (first [ exact Hk2 | solve_idx ]) ];
-        ck_run
-    end.
-    reflexivity.
+  - apply (exec_runs (length blk_b)). unfold blk_b. cbn [length].
+    Time ck_steps ltac:(idtac;
+      match goal with
+      | |- context [if ?idx <? N.of_nat (length words) then nth_error words (N.to_nat ?idx) else None] =>
+          first [ rewrite (load_abs words idx (2 * i) k1) by (first [ exact Hk1 | solve_idx ])
+                | rewrite (load_abs words idx (2 * i + 1) k2) by (first [ exact Hk2 | solve_idx ]) ]
+      end).
+    subst. reflexivity.
   - eexists. split; [|split; [|split]].
     + unfold mkstate, mkobj. f_equal. f_equal. f_equal. f_equal.
       cbn [mur_body_k fst snd]. rol_norm.
@@ -135,4 +135,281 @@ Proof.
     + reflexivity.
 Qed.
 
+Hypothesis Hwords : N.of_nat (length words) = 2 * n.
+
+Definition lane (j : nat) : N * N :=
+  (nth (N.to_nat (2 * N.of_nat j)) words 0, nth (N.to_nat (2 * N.of_nat j + 1)) words 0).
+
+Lemma blk_cond st i vars objs :
+  st = mkstate vars objs -> nth_error vars blk_ci = Some (Some i) -> nth_error vars blk_cn = Some (Some n) ->
+  eval st blk_c = Some (if i <? n then 1 else 0).
+Proof.
+  intros -> Hci Hcn. unfold blk_c, blk_ci, blk_cn in *.
+  cbn [eval]. unfold get_var. cbn [st_vars mkstate]. rewrite Hci, Hcn. reflexivity.
+Qed.
+
+Lemma blk_loop : forall (k i : nat) h st,
+  N.of_nat i + N.of_nat k = n -> fst h < 2 ^ 64 -> snd h < 2 ^ 64 -> BInv (N.of_nat i) h st ->
+  exists st', runs [SWhile blk_p blk_c blk_b] st st' /\
+              BInv n (fold_left (fun h j => mur_body_k h (lane j)) (seq i k) h) st'.
+Proof.
+  induction k as [|k IH]; intros i h st Hik Hh1 Hh2 Hinv.
+  - assert (Hin : N.of_nat i = n) by lia. exists st. split; [|cbn [seq fold_left]; rewrite <- Hin; exact Hinv].
+    destruct Hinv as (vars & Hst & _ & Hci & Hcn).
+    apply runs_while_false; [apply runs_nil|].
+    rewrite (blk_cond st _ _ _ Hst Hci Hcn), Hin, N.ltb_irrefl. reflexivity.
+  - assert (Hi : N.of_nat i < n) by lia.
+    assert (Hl : (N.to_nat (2 * N.of_nat i + 1) < length words)%nat) by lia.
+    destruct (blk_iter (N.of_nat i) h (fst (lane i)) (snd (lane i)) st) as (st1 & Hrun & Hinv1);
+      try assumption; try lia.
+    + unfold lane. cbn [fst]. apply nth_error_nth'. lia.
+    + unfold lane. cbn [snd]. apply nth_error_nth'. lia.
+    + replace (N.of_nat i + 1) with (N.of_nat (S i)) in Hinv1 by lia.
+      destruct (mur_body_k_lt h (fst (lane i), snd (lane i))) as [Hb1 Hb2].
+      destruct (IH (S i) _ st1 ltac:(lia) Hb1 Hb2 Hinv1) as (st' & Hrun' & Hinv').
+      exists st'. split.
+      * destruct Hinv as (vars & Hst & _ & Hci & Hcn).
+        eapply runs_while_true; [apply runs_nil| | |exact Hrun|exact Hrun'].
+        -- rewrite (blk_cond st _ _ _ Hst Hci Hcn). reflexivity.
+        -- destruct (N.ltb_spec (N.of_nat i) n); [discriminate|lia].
+      * cbn [seq fold_left]. rewrite <- surjective_pairing in Hinv'. exact Hinv'.
+Qed.
+
+Lemma blk_whole h1 h2 :
+  h1 < 2 ^ 64 -> h2 < 2 ^ 64 ->
+  exists F0, forall fuel, (F0 <= fuel)%nat ->
+    c_murmur3_block fuel words n [h1; h2] =
+    Some (let h := fold_left (fun h j => mur_body_k h (lane j)) (seq 0 (N.to_nat n)) (h1, h2) in [fst h; snd h]).
+Proof.
+  intros Hh1 Hh2.
+  assert (Hpre : exists st0, runs blk_pre (c_murmur3_block_init words n [h1; h2]) st0 /\ BInv 0 (h1, h2) st0).
+  { eexists. split.
+    - apply (exec_runs (length blk_pre)). unfold blk_pre, c_murmur3_block_init. cbn [length].
+      ck_steps idtac. reflexivity.
+    - eexists. split; [reflexivity|]. split; [reflexivity|]. split; [reflexivity|].
+      cbn. f_equal. f_equal. apply wrap_small. w32. lia. }
+  destruct Hpre as (st0 & Hrun0 & Hinv0).
+  destruct (blk_loop (N.to_nat n) 0 (h1, h2) st0 ltac:(lia) Hh1 Hh2 Hinv0) as (st' & Hrun & Hinv).
+  assert (Hall : runs c_murmur3_block_body (c_murmur3_block_init words n [h1; h2]) st').
+  { rewrite blk_body_eq. eapply runs_app; [exact Hrun0|].
+    change (SWhile blk_p blk_c blk_b :: blk_post) with ([SWhile blk_p blk_c blk_b] ++ blk_post).
+    eapply runs_app; [exact Hrun|]. apply runs_nil. }
+  destruct (runs_exec _ _ _ Hall) as [F0 HF]. exists F0. intros fuel Hf.
+  unfold c_murmur3_block. rewrite (HF fuel Hf).
+  destruct Hinv as (vars & -> & _). reflexivity.
+Qed.
+
 End Block.
+
+(* the lanes of the word view are the lanes of the 16-byte blocks *)
+Lemma fold_lanes : forall (k i : nat) (pre data : list N) h,
+  length pre = (i * 16)%nat -> length data = (k * 16)%nat ->
+  fold_left (fun h j => mur_body_k h (lane (le_words 8 (pre ++ data)) j)) (seq i k) h =
+  fold_left mur_body (chunks 16 data) h.
+Proof.
+  induction k as [|k IH]; intros i pre data h Hp Hd.
+  - destruct data; [reflexivity|cbn in Hd; lia].
+  - rewrite (chunks_cons 16 data) by (first [lia | intros ->; cbn in Hd; lia]).
+    cbn [seq fold_left].
+    set (blk := firstn 16 data). set (rest := skipn 16 data).
+    assert (Hdata : data = blk ++ rest) by (symmetry; apply firstn_skipn).
+    assert (Hblk : length blk = 16%nat) by (unfold blk; rewrite firstn_length; lia).
+    assert (Hrest : length rest = (k * 16)%nat) by (unfold rest; rewrite skipn_length; lia).
+    set (b1 := firstn 8 blk). set (b2 := skipn 8 blk).
+    assert (Hb : blk = b1 ++ b2) by (symmetry; apply firstn_skipn).
+    assert (Hb1 : length b1 = 8%nat) by (unfold b1; rewrite firstn_length; lia).
+    assert (Hb2 : length b2 = 8%nat) by (unfold b2; rewrite skipn_length; lia).
+    assert (Hlane : lane (le_words 8 (pre ++ data)) i = mur_lanes blk).
+    { unfold lane, mur_lanes. fold b1 b2. rewrite (firstn_all2 (n := 8) b2) by lia.
+      f_equal.
+      - apply nth_error_nth. replace (N.to_nat (2 * N.of_nat i)) with (2 * i)%nat by lia.
+        rewrite Hdata, Hb, <- !app_assoc. apply le_words_nth; lia.
+      - apply nth_error_nth. replace (N.to_nat (2 * N.of_nat i + 1)) with (2 * i + 1)%nat by lia.
+        rewrite Hdata, Hb, <- !app_assoc. rewrite (app_assoc pre b1).
+        apply le_words_nth; [lia| |lia]. rewrite app_length. lia. }
+    rewrite Hlane, <- mur_body_lanes.
+    replace (pre ++ data) with ((pre ++ blk) ++ rest) by (rewrite Hdata, app_assoc; reflexivity).
+    apply IH; [rewrite app_length; lia|exact Hrest].
+Qed.
+
+(* the kernel as the library declares it: input_data = num_blocks 16-byte blocks, digests = the two
+   64-bit state words; the byte string is seen through uint64_t loads (little-endian) *)
+Theorem ck_murmur_block_eq (data : list N) (nb : nat) (h1 h2 : N) :
+  length data = (16 * nb)%nat -> N.of_nat nb < 2 ^ 31 -> h1 < 2 ^ 64 -> h2 < 2 ^ 64 ->
+  exists F0, forall fuel, (F0 <= fuel)%nat ->
+    c_murmur3_block fuel (le_words 8 data) (N.of_nat nb) [h1; h2] =
+    Some (let h := fold_left mur_body (chunks 16 data) (h1, h2) in [fst h; snd h]).
+Proof.
+  intros Hlen Hnb Hh1 Hh2.
+  assert (Hw : N.of_nat (length (le_words 8 data)) = 2 * N.of_nat nb).
+  { rewrite (le_words_length 8 ltac:(lia) data (2 * nb)) by lia. lia. }
+  destruct (blk_whole (le_words 8 data) (N.of_nat nb) Hnb Hw h1 h2 Hh1 Hh2) as [F0 HF].
+  exists F0. intros fuel Hf. rewrite (HF fuel Hf). rewrite Nat2N.id.
+  rewrite <- (fold_lanes nb 0 [] data (h1, h2)) by (cbn; lia). reflexivity.
+Qed.
+
+(* ================================================================ _murmur3_x64_128_tail *)
+
+Definition tl_split := Eval vm_compute in split_while c_murmur3_tail_body.
+Definition tl_pre := Eval vm_compute in match tl_split with Some (a, _, _) => a | None => [] end.
+Definition tl_p := Eval vm_compute in match tl_split with Some (_, (p, _, _), _) => p | None => [] end.
+Definition tl_c := Eval vm_compute in match tl_split with Some (_, (_, c, _), _) => c | None => EConst 0 end.
+Definition tl_b := Eval vm_compute in match tl_split with Some (_, (_, _, b), _) => b | None => [] end.
+Definition tl_post := Eval vm_compute in match tl_split with Some (_, _, z) => z | None => [] end.
+Definition tl_nv := Eval vm_compute in length (st_vars (c_murmur3_tail_init [] 0 [] [])).
+
+Lemma tl_body_eq : c_murmur3_tail_body = (tl_pre ++ [SWhile tl_p tl_c tl_b]) ++ tl_post.
+Proof. reflexivity. Qed.
+
+(* the tail and finalisation on the two lanes *)
+Definition mur_tail_k (h : N * N) (k : N * N) (total_len : N) : N * N :=
+  let '(h1, h2) := h in
+  let '(k1, k2) := k in
+  let h1 := N.lxor h1 (mur_k1 k1) in
+  let h2 := N.lxor h2 (mur_k2 k2) in
+  let len := w64 total_len in
+  let h1 := N.lxor h1 len in
+  let h2 := N.lxor h2 len in
+  let h1 := add64 h1 h2 in
+  let h2 := add64 h2 h1 in
+  let h1 := fmix64 h1 in
+  let h2 := fmix64 h2 in
+  let h1 := add64 h1 h2 in
+  let h2 := add64 h2 h1 in
+  (h1, h2).
+
+Lemma mur_tail_lanes h t len : mur_tail h t len = mur_tail_k h (mur_lanes t) len.
+Proof. destruct h. reflexivity. Qed.
+
+Lemma lxor3 a b c : N.lxor a (N.lxor b c) = N.lxor (N.lxor a c) b.
+Proof. rewrite (N.lxor_comm b c), N.lxor_assoc. reflexivity. Qed.
+
+(* the state between the copy loop and the finalisation: the union holds 16 bytes U *)
+Definition tl_mid (tail : list N) (total_len h1 h2 : N) (U : list N) (vars : list (option N)) : state :=
+  mkstate (Some (wrap 32 total_len) :: vars) [mkobj 8 tail; mkobj 64 [h1; h2]; mkobj 8 U].
+
+(* (B) the finalisation, for any 16 bytes in the union *)
+Lemma tl_final tail total_len h1 h2 U vars :
+  total_len < 2 ^ 32 -> h1 < 2 ^ 64 -> h2 < 2 ^ 64 -> length U = 16%nat -> length vars = (tl_nv - 1)%nat ->
+  exists st', runs tl_post (tl_mid tail total_len h1 h2 U vars) st' /\
+              get_obj st' 1 = Some (let t := mur_tail_k (h1, h2) (le_to_N (firstn 8 U), le_to_N (skipn 8 U)) total_len
+                                    in [fst t; snd t]).
+Proof.
+  intros Hlen Hh1 Hh2 HU Hv. unfold tl_nv in Hv. cbn [Nat.sub] in Hv.
+  explode U HU. explode vars Hv. clear HU Hv.
+  eexists. split.
+  - apply (exec_runs (length tl_post)). unfold tl_post, tl_mid. cbn [length].
+    Time ck_steps idtac. subst. reflexivity.
+  - cbn [get_obj st_objs nth_error o_cells mkobj]. f_equal.
+    cbn [mur_tail_k fst snd firstn skipn]. rol_norm.
+    unfold mur_k1, mur_k2, mur_mix_k, fmix64, add64, mul64, rol64, w64, mur_c1, mur_c2.
+    rewrite (wrap_small 64 total_len) by (apply N.lt_trans with (2 ^ 32); [exact Hlen|reflexivity]).
+    rewrite (wrap_small 32 total_len) by exact Hlen.
+    rewrite !(lxor3 _ total_len).
+    reflexivity.
+Qed.
+
+(* (A) prefix and copy loop: for each of the 16 residues the union ends up holding the tail bytes
+   followed by zeros *)
+Ltac tl_case total_len Hlen Hlt :=
+  cbn [length] in Hlt;
+  let k := lazymatch type of Hlt with ?n = _ => eval vm_compute in (N.of_nat n) end in
+  let Hr := fresh "Hr" in
+  assert (Hr : wrap 32 total_len mod 16 = k) by (rewrite (wrap_small 32 total_len) by exact Hlen; lia);
+  eexists; split;
+  [ apply (exec_runs 200); unfold tl_pre, tl_p, tl_c, tl_b, c_murmur3_tail_init; cbn [app];
+    ck_steps ltac:(idtac; rewrite Hr); subst; reflexivity
+  | reflexivity ].
+
+Lemma tl_copy tail total_len h1 h2 junk :
+  total_len < 2 ^ 32 -> length tail = N.to_nat (total_len mod 16) ->
+  exists vars,
+    runs (tl_pre ++ [SWhile tl_p tl_c tl_b]) (c_murmur3_tail_init tail total_len [h1; h2] junk)
+         (tl_mid tail total_len h1 h2 (tail ++ repeat 0 (16 - length tail)) vars) /\
+    length vars = (tl_nv - 1)%nat.
+Proof.
+  intros Hlen Hlt.
+  assert (Hr16 : total_len mod 16 < 16) by (apply N.mod_lt; discriminate).
+  remember (firstn 16 (junk ++ repeat 0 16)) as J eqn:HJ.
+  assert (HlJ : length J = 16%nat).
+  { subst J. rewrite firstn_length, app_length, repeat_length. lia. }
+  unfold c_murmur3_tail_init. rewrite <- HJ. clear HJ junk.
+  explode J HlJ. clear HlJ.
+  unfold tl_mid.
+  Time do 16 (destruct tail as [|? tail]; [tl_case total_len Hlen Hlt|]).
+  exfalso. cbn [length] in Hlt. lia.
+Qed.
+
+Lemma lanes_pad (tail : list N) :
+  (length tail < 16)%nat ->
+  le_to_N (firstn 8 (tail ++ repeat 0 (16 - length tail))) = le_to_N (firstn 8 tail) /\
+  le_to_N (skipn 8 (tail ++ repeat 0 (16 - length tail))) = le_to_N (firstn 8 (skipn 8 tail)).
+Proof.
+  intros Hl.
+  do 16 (destruct tail as [|? tail];
+         [cbn [app repeat firstn skipn length Nat.sub]; cbv [le_to_N];
+          rewrite ?N.shiftl_0_l, ?N.lor_0_r, ?N.shiftl_0_l; split; reflexivity|]).
+  exfalso. cbn [length] in Hl. lia.
+Qed.
+
+(* _murmur3_x64_128_tail: tail_buffer holds the total_len mod 16 bytes after the last whole
+   block, digests the two 64-bit state words; every residue, every 32-bit total length *)
+Theorem ck_murmur_tail_eq (tail : list N) (total_len h1 h2 : N) (junk : list N) :
+  total_len < 2 ^ 32 -> length tail = N.to_nat (total_len mod 16) -> h1 < 2 ^ 64 -> h2 < 2 ^ 64 ->
+  exists F0, forall fuel, (F0 <= fuel)%nat ->
+    c_murmur3_tail fuel tail total_len [h1; h2] junk =
+    Some (let t := mur_tail (h1, h2) tail total_len in [fst t; snd t]).
+Proof.
+  intros Hlen Hlt Hh1 Hh2.
+  assert (Hr16 : total_len mod 16 < 16) by (apply N.mod_lt; discriminate).
+  destruct (tl_copy tail total_len h1 h2 junk Hlen Hlt) as (vars & Hrun1 & Hlv).
+  destruct (tl_final tail total_len h1 h2 (tail ++ repeat 0 (16 - length tail)) vars Hlen Hh1 Hh2) as (st' & Hrun2 & Hget);
+    [rewrite app_length, repeat_length; lia|exact Hlv|].
+  assert (Hall : runs c_murmur3_tail_body (c_murmur3_tail_init tail total_len [h1; h2] junk) st').
+  { rewrite tl_body_eq. eapply runs_app; [exact Hrun1|exact Hrun2]. }
+  destruct (runs_exec _ _ _ Hall) as [F0 HF]. exists F0. intros fuel Hf.
+  unfold c_murmur3_tail. rewrite (HF fuel Hf), Hget.
+  destruct (lanes_pad tail ltac:(lia)) as [E1 E2]. rewrite E1, E2.
+  rewrite mur_tail_lanes. reflexivity.
+Qed.
+
+(* ================================================================ the whole hash *)
+From ISAL Require Import Model.CKernelMurmur.
+
+Lemma fold_mur_body_lt (l : list (list N)) (h : N * N) :
+  fst h < 2 ^ 64 -> snd h < 2 ^ 64 ->
+  fst (fold_left mur_body l h) < 2 ^ 64 /\ snd (fold_left mur_body l h) < 2 ^ 64.
+Proof.
+  revert h. induction l as [|b l IH]; intros h H1 H2; [split; assumption|].
+  cbn [fold_left]. rewrite mur_body_lanes.
+  destruct (mur_body_k_lt h (mur_lanes b)). apply IH; assumption.
+Qed.
+
+Theorem ck_murmur3_x64_128_eq (seed : N) (msg junk : list N) :
+  N.of_nat (length msg) < 2 ^ 32 ->
+  exists F0, forall fuel, (F0 <= fuel)%nat ->
+    c_murmur3_x64_128 fuel seed msg junk =
+    Some (let r := murmur3_x64_128 seed msg in [fst r; snd r]).
+Proof.
+  intros Hlen. set (nb := (length msg / 16)%nat).
+  assert (Hdiv : length msg = (16 * nb + length msg mod 16)%nat) by (apply Nat.div_mod; lia).
+  assert (Hmod : (length msg mod 16 < 16)%nat) by (apply Nat.mod_upper_bound; lia).
+  assert (Hbody : length (firstn (mur_nbody msg) msg) = (16 * nb)%nat).
+  { unfold mur_nbody. fold nb. rewrite firstn_length. lia. }
+  assert (Hnb : N.of_nat nb < 2 ^ 31) by (change (2 ^ 32) with 4294967296 in Hlen; change (2 ^ 31) with 2147483648; lia).
+  destruct (ck_murmur_block_eq (firstn (mur_nbody msg) msg) nb (w64 seed) (w64 seed) Hbody Hnb
+              (wrap_lt 64 seed) (wrap_lt 64 seed)) as [F1 HF1].
+  set (h := fold_left mur_body (chunks 16 (firstn (mur_nbody msg) msg)) (w64 seed, w64 seed)) in *.
+  destruct (fold_mur_body_lt (chunks 16 (firstn (mur_nbody msg) msg)) (w64 seed, w64 seed)
+              (wrap_lt 64 seed) (wrap_lt 64 seed)) as [Hb1 Hb2]. fold h in Hb1, Hb2.
+  assert (Hrest : length (mur_rest msg) = N.to_nat (N.of_nat (length msg) mod 16)).
+  { unfold mur_rest, mur_nbody. fold nb. rewrite skipn_length.
+    replace (N.of_nat (length msg) mod 16) with (N.of_nat (length msg mod 16)).
+    - lia.
+    - change 16 with (N.of_nat 16). rewrite <- Nat2N.inj_mod. reflexivity. }
+  destruct (ck_murmur_tail_eq (mur_rest msg) (N.of_nat (length msg)) (fst h) (snd h) junk Hlen Hrest Hb1 Hb2)
+    as [F2 HF2].
+  exists (Nat.max F1 F2). intros fuel Hf. unfold c_murmur3_x64_128. fold nb.
+  rewrite (HF1 fuel ltac:(lia)). cbv zeta. rewrite (HF2 fuel ltac:(lia)).
+  unfold murmur3_x64_128, mur_blocks, mur_init. fold h. rewrite <- surjective_pairing. reflexivity.
+Qed.
